@@ -143,44 +143,52 @@ theorem fileSide_eq_some (o : Option Ent) (e : Ent) : fileSide o = some e ↔ o 
 
 /-! full build -/
 
-theorem has_collectTree (t : Tree) (m : Files) (b b' : Branch) (p : Path) (x : Blob) :
-    Has (collectTree m b t) b' p x ↔
-      Has m b' p x ∨ (b' = b ∧ ∃ e, (p, e) ∈ t ∧ e.isFile = true ∧ e.blob = x) := by
-  unfold collectTree
-  induction t generalizing m with
+theorem has_collectFold (ig0 : Path → Bool) (es : Tree) (m : Files) (b b' : Branch) (p : Path) (x : Blob) :
+    Has (es.foldl (fun m e => if e.2.isFile && !ig0 e.1 then addBranch m e.1 e.2.blob b else m) m) b' p x ↔
+      Has m b' p x ∨ (b' = b ∧ ∃ e, (p, e) ∈ es ∧ e.isFile = true ∧ ig0 p = false ∧ e.blob = x) := by
+  induction es generalizing m with
   | nil => simp
   | cons a r ih =>
     rw [List.foldl_cons, ih]
-    by_cases hf : a.2.isFile = true
+    by_cases hf : (a.2.isFile && !ig0 a.1) = true
     · rw [if_pos hf, has_addBranch]
+      simp only [Bool.and_eq_true, Bool.not_eq_true'] at hf
       constructor
       · rintro ((h | ⟨rfl, rfl, rfl⟩) | ⟨rfl, e, he, h1, h2⟩)
         · exact Or.inl h
-        · exact Or.inr ⟨rfl, a.2, by simp, hf, rfl⟩
+        · exact Or.inr ⟨rfl, a.2, by simp, hf.1, hf.2, rfl⟩
         · exact Or.inr ⟨rfl, e, List.mem_cons_of_mem _ he, h1, h2⟩
-      · rintro (h | ⟨rfl, e, he, h1, h2⟩)
+      · rintro (h | ⟨rfl, e, he, h1, h2, h3⟩)
         · exact Or.inl (Or.inl h)
         · rcases List.mem_cons.mp he with heq | he
           · left; right
             have : a = (p, e) := heq.symm
             subst this
-            exact ⟨rfl, h2.symm, rfl⟩
-          · exact Or.inr ⟨rfl, e, he, h1, h2⟩
+            exact ⟨rfl, h3.symm, rfl⟩
+          · exact Or.inr ⟨rfl, e, he, h1, h2, h3⟩
     · rw [if_neg hf]
       constructor
       · rintro (h | ⟨rfl, e, he, h1, h2⟩)
         · exact Or.inl h
         · exact Or.inr ⟨rfl, e, List.mem_cons_of_mem _ he, h1, h2⟩
-      · rintro (h | ⟨rfl, e, he, h1, h2⟩)
+      · rintro (h | ⟨rfl, e, he, h1, h2, h3⟩)
         · exact Or.inl h
         · rcases List.mem_cons.mp he with heq | he
           · have : a = (p, e) := heq.symm
             subst this
-            exact absurd h1 hf
-          · exact Or.inr ⟨rfl, e, he, h1, h2⟩
+            exfalso; apply hf
+            simp [h1, h2]
+          · exact Or.inr ⟨rfl, e, he, h1, h2, h3⟩
 
-theorem keys_collectTree (t : Tree) (m : Files) (b : Branch) (h : KeysPW m) : KeysPW (collectTree m b t) := by
+theorem has_collectTree (I : Ignore) (t : Tree) (m : Files) (b b' : Branch) (p : Path) (x : Blob) :
+    Has (collectTree I m b t) b' p x ↔
+      Has m b' p x ∨ (b' = b ∧ ∃ e, (p, e) ∈ t ∧ e.isFile = true ∧ I.ig t p = false ∧ e.blob = x) :=
+  has_collectFold (I.ig t) t m b b' p x
+
+theorem keys_collectTree (I : Ignore) (t : Tree) (m : Files) (b : Branch) (h : KeysPW m) :
+    KeysPW (collectTree I m b t) := by
   unfold collectTree
+  generalize I.ig t = ig0
   induction t generalizing m with
   | nil => exact h
   | cons a r ih =>
@@ -190,9 +198,9 @@ theorem keys_collectTree (t : Tree) (m : Files) (b : Branch) (h : KeysPW m) : Ke
     · exact keys_addBranch _ _ _ _ h
     · exact h
 
-theorem has_collect_aux (r : Repo) (bs : List Branch) (m : Files) (b : Branch) (p : Path) (x : Blob) :
-    Has (bs.foldl (fun m b => collectTree m b (head r b)) m) b p x ↔
-      Has m b p x ∨ (b ∈ bs ∧ ∃ e, (p, e) ∈ head r b ∧ e.isFile = true ∧ e.blob = x) := by
+theorem has_collect_aux (I : Ignore) (r : Repo) (bs : List Branch) (m : Files) (b : Branch) (p : Path) (x : Blob) :
+    Has (bs.foldl (fun m b => collectTree I m b (head r b)) m) b p x ↔
+      Has m b p x ∨ (b ∈ bs ∧ ∃ e, (p, e) ∈ head r b ∧ e.isFile = true ∧ I.ig (head r b) p = false ∧ e.blob = x) := by
   induction bs generalizing m with
   | nil => simp
   | cons c cs ih =>
@@ -208,28 +216,30 @@ theorem has_collect_aux (r : Repo) (bs : List Branch) (m : Files) (b : Branch) (
         · exact Or.inl (Or.inr ⟨rfl, h⟩)
         · exact Or.inr ⟨hb, h⟩
 
-theorem keys_collect_aux (r : Repo) (bs : List Branch) (m : Files) (h : KeysPW m) :
-    KeysPW (bs.foldl (fun m b => collectTree m b (head r b)) m) := by
+theorem keys_collect_aux (I : Ignore) (r : Repo) (bs : List Branch) (m : Files) (h : KeysPW m) :
+    KeysPW (bs.foldl (fun m b => collectTree I m b (head r b)) m) := by
   induction bs generalizing m with
   | nil => exact h
-  | cons c cs ih => rw [List.foldl_cons]; exact ih _ (keys_collectTree _ _ _ h)
+  | cons c cs ih => rw [List.foldl_cons]; exact ih _ (keys_collectTree _ _ _ _ h)
 
 theorem keys_nil : KeysPW [] := List.Pairwise.nil
 
-theorem keys_collect (r : Repo) (brs : List Branch) : KeysPW (collect r brs) :=
-  keys_collect_aux r brs [] keys_nil
+theorem keys_collect (I : Ignore) (r : Repo) (brs : List Branch) : KeysPW (collect I r brs) :=
+  keys_collect_aux I r brs [] keys_nil
 
-/-- the normal build lists branch `b` on document (p, x) exactly when `b` is indexed and has file `x` at `p` -/
-theorem has_collect (r : Repo) (brs : List Branch) (hwf : ∀ b, TreeWF (head r b)) (b : Branch) (p : Path)
-    (x : Blob) : Has (collect r brs) b p x ↔ b ∈ brs ∧ fblob (head r b) p = some x := by
+/-- the normal build lists branch `b` on document (p, x) exactly when `b` is indexed, has file `x` at `p`, and the
+    ignore file of `b`'s tree does not exclude `p` -/
+theorem has_collect (I : Ignore) (r : Repo) (brs : List Branch) (hwf : ∀ b, TreeWF (head r b)) (b : Branch)
+    (p : Path) (x : Blob) :
+    Has (collect I r brs) b p x ↔ b ∈ brs ∧ fblob (head r b) p = some x ∧ I.ig (head r b) p = false := by
   unfold collect
   rw [has_collect_aux, fblob_eq_some]
   constructor
-  · rintro (h | ⟨hb, e, he, h1, h2⟩)
+  · rintro (h | ⟨hb, e, he, h1, h2, h3⟩)
     · exact absurd h (has_nil b p x)
-    · exact ⟨hb, e, tget_of_mem _ (hwf b) _ _ he, h1, h2⟩
-  · rintro ⟨hb, e, he, h1, h2⟩
-    exact Or.inr ⟨hb, e, mem_of_tget _ _ _ he, h1, h2⟩
+    · exact ⟨hb, ⟨e, tget_of_mem _ (hwf b) _ _ he, h1, h3⟩, h2⟩
+  · rintro ⟨hb, ⟨e, he, h1, h3⟩, h2⟩
+    exact Or.inr ⟨hb, e, mem_of_tget _ _ _ he, h1, h2, h3⟩
 
 /-! delta build -/
 
